@@ -37,7 +37,12 @@ fn do_case(case: Vec<i128>) {
                 emit_oracle(&o);
             }
             if elem == 6 && harness::track::zlive() != 0 {
-                emit_oracle(&format!("zero-sized drop-counted elements: created minus dropped = {} after everything is gone", harness::track::zlive()));
+                let z = harness::track::zlive();
+                if z < 0 {
+                    emit_oracle(&format!("zero-sized drop-counted elements released twice: {} more destructor runs than values were created", -z));
+                } else {
+                    emit_oracle(&format!("zero-sized drop-counted elements lost: created minus dropped = {} after everything is gone", z));
+                }
             }
         }
         Err(m) => {
@@ -127,8 +132,9 @@ fn main() {
                 for pan in -1..(n as i128) {
                     dist(&format!("op{}", op));
                     do_case(vec![op, form, 0, n as i128, pan, 0, 0, mode]);
-                    // generate with zero-sized drop-counted elements
-                    if op == 3 {
+                    // zero-sized drop-counted elements (no identities: the number of destructor runs is what shows)
+                    // (map / zip / fold: the owned receiver form only -- borrowed sources stay with the harness)
+                    if op == 3 || (op <= 2 && form == 0) {
                         dist("zst_counted");
                         do_case(vec![op, form, 6, n as i128, pan, 0, 0, mode]);
                     }
